@@ -5,11 +5,20 @@ ID = "C12"
 BIN = "c12"
 PROOF_MODULES = ["Compute.Props.C12"]
 REQUIRED_THEOREMS = ["Cv.C12.broadcast_total", "Cv.C12.broadcast_shape", "Cv.C12.broadcast_entry"]
-RULE = ("special-value stratum (every classifier leaf x operator x operand kind with NaN / inf / signed zeros / subnormals in the data and as the 1x1 operand); size-boundary shapes (7..9, 15..17, 31..33, 40, products around 1024) against row / column / scalar partners in both orders; every shape pair with rows, cols in 1..6 (1296 pairs) x 4 operators x {mm, mv, vm} x 4 ownership "
-        "forms with distinct entries, plus random shapes up to 40x40; non-trivial = distinct (op, kind, shapes) class")
+RULE = ("special-value stratum (every classifier leaf x operator x operand kind with NaN / inf / signed zeros / subnormals in the data and as the 1x1 operand); size-boundary shapes (7..9, 15..17, 31..33, 40, products around 1024) against row / column / scalar partners in both orders; every shape pair with rows, cols in 1..6 (1296 pairs): Matrix∘Matrix with 4 of the 16 (operator, ownership form) combinations per pair in the quick tier (each operator once, forms rotating) and all 16 in the thorough tier, Matrix∘Vector and Vector∘Matrix with every operator for every eligible pair (ownership form rotating in quick, all four in thorough), "
+        "with distinct non-commuting entries, plus random shapes up to 40x40; non-trivial = distinct (op, kind, shapes) class")
 EXHAUSTIVE = {"quick": False, "thorough": False}
-NOT_PROVED = []
-TRUSTED = ["element operators are IEEE + - * / on f64 (one operation per entry, compared bit for bit)"]
+NOT_PROVED = [
+    "the theorems are about the hand-written model of `broadcast_op!` (lean/Compute/Model/Broadcast.lean) with ONE abstract operator; only the classifier "
+    "`calc_broadcast_shape` is regenerated from the Rust text (Props/SrcTieC12). That the macro's leaves apply the operator with left and right operands "
+    "in the modelled order - through the four distinct Rust paths f64 op f64, `y op *x` inside apply_along_row / zip loops, `f64 op &Matrix` (sv kernels) "
+    "and `&Matrix op f64` (vs kernels) -, that the 48 operator impls (4 operators x {Matrix,Vector} operand kinds x 4 ownership forms) all reach that macro, "
+    "and that a Vector operand is promoted to a 1 x n matrix, is tied at run time only: every (operator, kind, ownership form) is executed against the model "
+    "bit for bit with non-commuting data, and judged by the independent NumPy-rule oracle",
+    "zero-dimension operands (0 rows or 0 columns) are outside the theorems (hypothesis Good: rows, cols >= 1) and outside the generator",
+]
+TRUSTED = ["element operators are IEEE + - * / on f64 (one operation per entry, compared bit for bit)",
+           "the driver lean/Compute/Drv/C12.lean maps the three operand kinds (mm, mv, vm) and all four ownership forms to the one model function (hand-written; checked by the correspondence run on every form)"]
 OPS = ["add", "sub", "mul", "div"]
 
 
@@ -43,12 +52,15 @@ def gen(rng, tier):
                         combos = [(OPS[k], combos[k][1]) for k in range(4)]
                     for op, own in combos:
                         lines.append(mk(op, "mm", own, r1, c1, r2, c2, data(rng, r1 * c1, 1.0), data(rng, r2 * c2, 100.0)))
+                    # Matrix∘Vector / Vector∘Matrix: every operator for every eligible pair (ownership form rotating in quick, all four in thorough)
                     if r2 == 1:
-                        op, own = rng.choice(OPS), rng.randint(0, 3)
-                        lines.append(mk(op, "mv", own, r1, c1, 1, c2, data(rng, r1 * c1, 1.0), data(rng, c2, 100.0)))
+                        for oi, op in enumerate(OPS):
+                            for own in (range(4) if tier == "thorough" else [(r1 + c1 + c2 + oi) % 4]):
+                                lines.append(mk(op, "mv", own, r1, c1, 1, c2, data(rng, r1 * c1, 1.0), data(rng, c2, 100.0)))
                     if r1 == 1:
-                        op, own = rng.choice(OPS), rng.randint(0, 3)
-                        lines.append(mk(op, "vm", own, 1, c1, r2, c2, data(rng, c1, 1.0), data(rng, r2 * c2, 100.0)))
+                        for oi, op in enumerate(OPS):
+                            for own in (range(4) if tier == "thorough" else [(c1 + r2 + c2 + oi) % 4]):
+                                lines.append(mk(op, "vm", own, 1, c1, r2, c2, data(rng, c1, 1.0), data(rng, r2 * c2, 100.0)))
     # size-boundary strata (block / unroll / parallel fast-path boundaries seen in seeded changes: 8, 16, 32, 1024 …)
     edge = [7, 8, 9, 15, 16, 17, 31, 32, 33, 40] if tier == "quick" else [7, 8, 9, 15, 16, 17, 23, 24, 25, 31, 32, 33, 39, 40, 63, 64, 65]
     bshapes = []
